@@ -31,6 +31,12 @@ def no_statement_rule(ctx, rule):
         if fn is None:
             continue
         cs = [bi for bi, t in fn.calls() if callee_def(t) == PARSER + "parse_statement"]
+        if not cs:
+            # the statement step may sit in a closure driven by a library loop: it runs where the iterator is consumed
+            for b in F.with_closures(fn):
+                for bi, t in b.calls():
+                    if b is not fn and callee_def(t) == PARSER + "parse_statement":
+                        cs += sorted(common.site_anchors(F, fn, b, bi))
         if cs:
             entry[fn.path] = progress.handled_before_statement(F, fn, cs[0], N)
     n = 0
@@ -116,6 +122,12 @@ def c13(ctx):
         rep.analysed(fn)
         ps = [bi for bi, t in fn.calls() if callee_def(t) == PARSER + "parse_statement"]
         eol = [bi for bi, t in fn.calls() if callee_def(t) == PARSER + "expect_eol"]
+        if not ps and not eol:
+            # form B: the statement step is a closure driven by a library loop (iter::from_fn(step) collected into a Result)
+            okB, whyB = _statement_step_closure(ctx, fn)
+            if okB is not None:
+                rep.ob("C13.R1", "eol-between-statements::" + name, okB, whyB, fn.loc(), how="step closure: Some(Ok(s)) only after expect_eol() succeeded, Err handed on, None when no statement; consumed by a short-circuiting collect")
+                continue
         ok = len(ps) == 1 and len(eol) == 1
         why = "" if ok else "expected one parse_statement and one expect_eol call, found %d / %d" % (len(ps), len(eol))
         if ok:
@@ -316,6 +328,68 @@ def line_attribution(ctx):
 SEPARATOR_LOOP_EXCEPTIONS = {
     PARSER + "match_and_consume_while": "the callback processes the token just consumed; this loop has no operand to require",
 }
+
+
+def _statement_step_closure(ctx, fn):
+    """(ok, why) for a statement loop written as iter::from_fn(step) ... collect::<Result<_, _>>(); (None, '') if fn has no such shape.
+    The step closure is interpreted by KIND over the outcomes of parse_statement and expect_eol."""
+    from .. import kind, kindtables as kt
+    from ..kind import E
+    from ..guards import _closure_use
+    F = ctx.F
+    RES, OPT = "std::result::Result", "std::option::Option"
+    step = None
+    for b in F.with_closures(fn):
+        if b.kind != "closure":
+            continue
+        u = _closure_use(F, b)
+        if u and u[0] is fn and u[2]["callee"].get("name") == "from_fn":
+            if any(callee_def(t) == PARSER + "parse_statement" for b2 in F.with_closures(b) for _, t in b2.calls()):
+                step = (b, u[1])
+    if step is None:
+        return None, ""
+    b, fb = step
+    # the iterator goes (through lazy adaptors that do not drop elements) into a short-circuiting consumer
+    consumers = []
+    frontier, seen = [fb], set()
+    while frontier:
+        src = frontier.pop()
+        if src in seen:
+            continue
+        seen.add(src)
+        for b2, t2 in fn.calls():
+            if b2 != src and any(d[0] == "call" and d[1] == src for a in t2["args"] for d, _ in origins(fn, a)):
+                nm = t2["callee"].get("name")
+                if nm in ("map", "inspect", "by_ref", "into_iter", "fuse"):
+                    frontier.append(b2)
+                else:
+                    consumers.append((b2, t2))
+    if len(consumers) != 1:
+        return False, "the statement iterator is consumed at %d places" % len(consumers)
+    cb, ct = consumers[0]
+    nm = ct["callee"].get("name")
+    dty = fn.local_ty(ct["dest"]["l"]).s
+    if not ((nm in ("collect", "try_collect") and dty.startswith("std::result::Result<")) or nm in ("try_for_each", "try_fold")):
+        return False, "the statement iterator is consumed by %s, which does not stop at the first error" % nm
+
+    def m_stmt(I, f_, st, t, args, depth):
+        yield E(RES, "Ok", E(OPT, "Some", ("sym", "s"))), None, ((("stmt",), "some"),)
+        yield E(RES, "Ok", E(OPT, "None")), None, ((("stmt",), "none"),)
+        yield E(RES, "Err", ("sym", "e1")), None, ((("stmt",), "err"),)
+
+    def m_eol(I, f_, st, t, args, depth):
+        yield E(RES, "Ok", ("t", ())), None, ((("eol",), "ok"),)
+        yield E(RES, "Err", ("sym", "e2")), None, ((("eol",), "err"),)
+    I = kind.Interp(F, models={PARSER + "parse_statement": m_stmt, PARSER + "expect_eol": m_eol})
+    got = set()
+    for o in I.run(b, [("sym", "env")] + [("sym", "a%d" % i) for i in range(2, b.argc + 1)]):
+        got.add((kt.term(o.ret), tuple(tk for c_, tk in o.conds if isinstance(c_, tuple) and c_ and c_[0] in (("stmt",), ("eol",)) or (isinstance(c_, tuple) and c_ and c_[0] in ("stmt", "eol")))))
+    if I.incomplete:
+        return False, "the step closure could not be interpreted completely"
+    want = {("Some(Err(e1))", ("err",)), ("None", ("none",)), ("Some(Err(e2))", ("some", "err")), ("Some(Ok(s))", ("some", "ok"))}
+    if got != want:
+        return False, "the step of the statement loop yields %s; a statement is handed on only after its end-of-line check succeeded, errors are handed on, and the loop ends when there is no statement: %s" % (sorted(got), sorted(want))
+    return True, ""
 
 
 def look_before_take(ctx, rule):
